@@ -385,9 +385,12 @@ Proof.
       assert (P0 : pay = 0%N) by (unfold pay, worth; apply stake_zero; lia).
       rewrite P0, !N.sub_0_r. unfold z in *. replace (q * Z.of_N 0) with 0 by lia.
       rewrite Z.sub_0_r. repeat split; try assumption.
-    + assert (W := wd_step q (z (uA A st)) (z (bal (mpool st))) (z (tsh (mpool st))) K (z s) (z pay)).
-      unfold z in *.
-      destruct W as [W1 W2]; try lia; try nia.
+    + unfold z in *.
+      assert (W : q * Z.of_N pay <= K /\
+                  q * (Z.of_N (uA A st) - Z.of_N s) * (Z.of_N (bal (mpool st)) - Z.of_N pay)
+                  <= (Z.of_N (tsh (mpool st)) - Z.of_N s) * (K - q * Z.of_N pay)).
+      { apply wd_step; try lia; nia. }
+      destruct W as [W1 W2].
       rewrite !N2Z.inj_sub by lia.
       split; [lia|]. split; [lia|]. split; [|exact W2].
       intros Hz. assert (s = tsh (mpool st)) by lia. subst s.
@@ -402,7 +405,7 @@ Proof.
     + specialize (I3 S0). rewrite S0 in *. unfold z in *. repeat split; try nia.
     + pose proof (cdiv_ge (uA A st * a) (tsh (mpool st)) S0) as C.
       set (sh := cdiv (uA A st * a) (tsh (mpool st))) in *.
-      unfold z in *. repeat split; try nia. contradiction.
+      unfold z in *. repeat split; try nia; try contradiction.
   - (* slash *)
     unfold mnext, mstep. cbn [fst]. rewrite slash_single, N.add_0_r. set (st' := mkM _ _ _ _).
     assert (U : uA A st' = uA A st) by reflexivity.
@@ -410,7 +413,6 @@ Proof.
     assert (OUT : outA A st' = outA A st) by reflexivity.
     unfold Inv, Kz. rewrite U, IN, OUT. cbn [st' mpool bal tsh]. unfold Kz in *.
     unfold z in *. repeat split; try nia.
-    intros S0. specialize (I3 S0). nia.
 Qed.
 
 Lemma Inv_run A p q ops : 0 < q -> Forall (actor_in A) ops ->
@@ -449,7 +451,7 @@ Proof.
   assert (I0 : Inv A p q st0 0).
   { unfold Inv, Kz, p, p0, q. destruct (N.eqb_spec (tsh (mpool st0)) 0) as [S0|S0]; unfold z in *.
     - assert (uA A st0 = 0) by lia. repeat split; try nia.
-    - repeat split; try nia. contradiction. }
+    - repeat split; try nia; try contradiction. }
   pose proof (Inv_run A p q ops Hq HF st0 0 Hw I0) as [J1 [J2 [J3 J4]]].
   fold st in J1, J2, J3, J4. rewrite N.add_0_l in *.
   set (rs := rshare A st0 ops) in *.
@@ -461,7 +463,7 @@ Proof.
       set (w := worth (mpool st) (uA A st)) in *.
       assert (E : (z (tsh (mpool st)) * (q * z w) <= z (tsh (mpool st)) * Kz A p q st rs)%Z).
       { unfold z in *. nia. }
-      apply Z.mul_le_mono_pos_l in E; unfold z; lia. }
+      apply Z.mul_le_mono_pos_l in E; unfold z in *; lia. }
   unfold Kz, p in HW. set (w := worth (mpool st) (uA A st)) in *.
   (* q * (out + w + in0) <= q * (in + out0 + rs) + p0, then divide *)
   assert (HX : (q * (z (outA A st) + z w + z (inA A st0) - z (inA A st) - z (outA A st0) - z rs) <= p0)%Z) by lia.
@@ -484,6 +486,13 @@ Proof.
   rewrite IH. destruct o; cbn [plain rstep] in *; try contradiction; reflexivity.
 Qed.
 
+Lemma sumA_minit_zero A f (hold : list (N * N)) : (forall x, f (mkDeleg x 0 0) = 0) ->
+  sumA A f (map (fun x => (fst x, mkDeleg (snd x) 0 0)) hold) = 0.
+Proof.
+  intros Hf. induction hold as [|[k x] r IH]; cbn [map sumA fst snd]; [reflexivity|].
+  rewrite Hf, IH. destruct (A k); reflexivity.
+Qed.
+
 Lemma no_profit_without_rewards_l A b s hold ops :
   wfm (minit b s hold) -> (s = 0 -> b = 0) ->
   Forall plain ops -> Forall (actor_in A) ops ->
@@ -495,13 +504,147 @@ Proof.
   pose proof (profit_bound_l A st0 ops Hw Ha) as P. fold st in P.
   rewrite (rshare_plain A ops Hp) in P.
   assert (Z1 : forall f, (forall x, f (mkDeleg x 0 0) = 0) -> sumA A f (mdel st0) = 0).
-  { intros f Hf. unfold st0, minit. cbn [mdel]. induction hold as [|[k x] r IH]; cbn [map sumA fst snd]; [reflexivity|].
-    rewrite Hf. destruct (A k); lia. }
+  { intros f Hf. unfold st0, minit. cbn [mdel]. apply sumA_minit_zero. exact Hf. }
   assert (I0 : inA A st0 = 0) by (apply Z1; reflexivity).
   assert (O0 : outA A st0 = 0) by (apply Z1; reflexivity).
   assert (SV : start_value A st0 = worth (mpool st0) (uA A st0)).
   { unfold start_value, st0, minit. cbn [mpool bal tsh].
     destruct (N.eqb_spec s 0) as [S0|S0]; [|reflexivity].
     rewrite (Ho S0). unfold worth. rewrite stake_zero by (cbn [bal]; lia). reflexivity. }
-  lia.
+  cbv zeta in P. rewrite I0, O0, SV in P. lia.
+Qed.
+
+(* ---------- a single acting delegator ---------- *)
+Lemma sumA_none A f l : (forall k, In k (keys l) -> A k = false) -> sumA A f l = 0.
+Proof.
+  induction l as [|[k x] r IH]; cbn [sumA keys map fst In]; [reflexivity|].
+  intros H. rewrite (H k) by (left; reflexivity). rewrite IH; [reflexivity|].
+  intros k' Hk. apply H. right. exact Hk.
+Qed.
+
+Lemma sumA_single d f l : f deleg0 = 0 -> NoDup (keys l) -> sumA (N.eqb d) f l = f (dget d l).
+Proof.
+  intros f0 H. rewrite (sumA_adel (N.eqb d) f f0 d l H), N.eqb_refl.
+  rewrite sumA_none; [lia|]. intros k Hk. apply adel_keys_in in Hk. lia.
+Qed.
+
+Definition only_actor (d : N) (o : mop) : Prop := actor_in (N.eqb d) o.
+
+Lemma only_actor_in d o : only_actor d o <->
+  match o with ODeposit d' _ | OWithdraw d' _ => d' = d | _ => True end.
+Proof. unfold only_actor. destruct o; cbn [actor_in]; try tauto; split; lia. Qed.
+
+Lemma sole_actor_no_profit_l d b s hold ops :
+  wfm (minit b s hold) -> (s = 0 -> b = 0) ->
+  Forall plain ops -> Forall (only_actor d) ops ->
+  let st0 := minit b s hold in
+  let st := mfinal st0 ops in
+  dout (dget d (mdel st)) + worth (mpool st) (dsh (dget d (mdel st)))
+  <= din (dget d (mdel st)) + worth (mpool st0) (dsh (dget d (mdel st0))).
+Proof.
+  intros Hw Ho Hp Ha st0 st.
+  pose proof (no_profit_without_rewards_l (N.eqb d) b s hold ops Hw Ho Hp Ha) as P.
+  cbv zeta in P. fold st0 in P. fold st in P.
+  pose proof (wfm_run ops st0 Hw) as [Hk _]. fold st in Hk. destruct Hw as [Hk0 _].
+  unfold outA, inA, uA in P.
+  rewrite !(sumA_single d _ (mdel st)) in P by (try reflexivity; exact Hk).
+  rewrite (sumA_single d _ (mdel st0)) in P by (try reflexivity; exact Hk0).
+  exact P.
+Qed.
+
+(* ---------- price and passive holders, machine level ---------- *)
+Definition is_slash (o : mop) : Prop := match o with OSlash _ => True | _ => False end.
+
+Lemma price_step st o : ~ is_slash o -> price_le (mpool st) (mpool (mnext st o)).
+Proof.
+  intros Hn. destruct o as [d a|d s|a|a]; cbn [is_slash] in Hn; [| | |tauto].
+  - destruct (shares_for_stake (mpool st) a) as [m|] eqn:E.
+    + rewrite (mnext_deposit_ok _ _ _ _ E). cbn [mpool].
+      unfold price_le. cbn [bal tsh]. intros Hs.
+      pose proof (sfs_bounds _ _ _ E Hs) as [_ [L _]].
+      rewrite N.mul_add_distr_l, N.mul_add_distr_r. lia.
+    + rewrite (mnext_deposit_err _ _ _ E). unfold price_le. lia.
+  - destruct (N.le_gt_cases s (dsh (dget d (mdel st)))) as [H1|H1];
+    [destruct (N.le_gt_cases s (tsh (mpool st))) as [H2|H2]|].
+    + rewrite (mnext_withdraw_ok _ _ _ H1 H2). cbn [mpool].
+      unfold price_le, worth. cbn [bal tsh]. intros _.
+      pose proof (stake_le_cross (mpool st) s) as L. pose proof (stake_le_bal (mpool st) s H2) as Lb.
+      rewrite N.mul_sub_distr_l, N.mul_sub_distr_r. lia.
+    + rewrite mnext_withdraw_err by lia. unfold price_le. lia.
+    + rewrite mnext_withdraw_err by lia. unfold price_le. lia.
+  - unfold mnext, mstep. cbn [fst mpool]. unfold price_le. cbn [bal tsh]. intros _.
+    rewrite N.mul_add_distr_r. lia.
+Qed.
+
+Lemma slash_step st a :
+  price_le (mpool (mnext st (OSlash a))) (mpool st) /\
+  tsh (mpool (mnext st (OSlash a))) = tsh (mpool st) /\
+  bal (mpool (mnext st (OSlash a))) = bal (mpool st) - N.min (bal (mpool st)) a /\
+  mdel (mnext st (OSlash a)) = mdel st.
+Proof.
+  unfold mnext, mstep. cbn [fst mpool mdel bal tsh]. rewrite slash_single.
+  repeat split. unfold price_le. cbn [bal tsh]. intros _. apply N.mul_le_mono_r. lia.
+Qed.
+
+Lemma pair_le_total d d' l : d <> d' -> NoDup (keys l) ->
+  dsh (dget d l) + dsh (dget d' l) <= sumA allA dsh l.
+Proof.
+  intros Hne H. rewrite (sumA_adel allA dsh eq_refl d l H). change (allA d) with true. cbv iota.
+  pose proof (sumA_ge allA dsh eq_refl d' (adel d l) (adel_nodup d l H) eq_refl) as L.
+  unfold dget in L at 1. rewrite aget_adel_other in L by congruence. fold (dget d' l) in L. lia.
+Qed.
+
+Definition passive (d : N) (o : mop) : Prop :=
+  match o with
+  | ODeposit d' _ | OWithdraw d' _ => d' <> d
+  | OReward _ => True
+  | OSlash _ => False
+  end.
+
+Lemma passive_step st o d : wfm st -> passive d o ->
+  dget d (mdel (mnext st o)) = dget d (mdel st) /\
+  worth (mpool st) (dsh (dget d (mdel st))) <= worth (mpool (mnext st o)) (dsh (dget d (mdel st))).
+Proof.
+  intros [Hk Hs] Hp.
+  assert (Hpr : price_le (mpool st) (mpool (mnext st o))).
+  { apply price_step. destruct o; cbn [passive is_slash] in *; tauto. }
+  destruct o as [d' a|d' s|a|a]; cbn [passive] in Hp; [| | |tauto].
+  - destruct (shares_for_stake (mpool st) a) as [m|] eqn:E.
+    + rewrite (mnext_deposit_ok _ _ _ _ E) in *. cbn [mdel mpool] in *.
+      split; [apply dget_aset_other; congruence|].
+      apply worth_mono_price; [exact Hpr|]. cbn [tsh]. intros Hz. unfold worth. apply stake_zero. lia.
+    + rewrite (mnext_deposit_err _ _ _ E). split; [reflexivity|lia].
+  - destruct (N.le_gt_cases s (dsh (dget d' (mdel st)))) as [H1|H1];
+    [destruct (N.le_gt_cases s (tsh (mpool st))) as [H2|H2]|].
+    + rewrite (mnext_withdraw_ok _ _ _ H1 H2) in *. cbn [mdel mpool] in *.
+      split; [apply dget_aset_other; congruence|].
+      apply worth_mono_price; [exact Hpr|]. cbn [tsh]. intros Hz.
+      pose proof (pair_le_total d d' (mdel st) (not_eq_sym Hp) Hk) as L.
+      unfold worth. apply stake_zero. lia.
+    + rewrite mnext_withdraw_err by lia. split; [reflexivity|lia].
+    + rewrite mnext_withdraw_err by lia. split; [reflexivity|lia].
+  - split; [reflexivity|].
+    apply worth_mono_price; [exact Hpr|]. unfold mnext, mstep. cbn [fst mpool tsh].
+    intros Hz. unfold worth. apply stake_zero. lia.
+Qed.
+
+Lemma passive_holder_never_loses_l d ops : Forall (passive d) ops ->
+  forall st, wfm st ->
+  dget d (mdel (mfinal st ops)) = dget d (mdel st) /\
+  worth (mpool st) (dsh (dget d (mdel st))) <= worth (mpool (mfinal st ops)) (dsh (dget d (mdel st))).
+Proof.
+  intros HF. induction HF as [|o r Ho Hr IH]; intros st Hw; [split; [reflexivity|rewrite mfinal_nil; lia]|].
+  rewrite mfinal_cons. destruct (passive_step st o d Hw Ho) as [E L].
+  destruct (IH (mnext st o) (wfm_step st o Hw)) as [E2 L2]. rewrite E in E2, L2.
+  split; [exact E2|lia].
+Qed.
+
+(* only a slash lowers the price: along any run without slashes the price is
+   non-decreasing from each state to the next *)
+Lemma price_falls_only_by_slash_l st o :
+  (~ is_slash o -> price_le (mpool st) (mpool (mnext st o))) /\
+  (is_slash o -> price_le (mpool (mnext st o)) (mpool st) /\ tsh (mpool (mnext st o)) = tsh (mpool st)).
+Proof.
+  split; [apply price_step|]. destruct o; cbn [is_slash]; try tauto. intros _.
+  destruct (slash_step st a) as [H1 [H2 _]]. split; assumption.
 Qed.
